@@ -15,8 +15,10 @@
    - Python sets (namespace_index, Namespace._nested_namespaces) are duplicate-free lists;
      wherever the code iterates over a set the model applies an explicit, arbitrary
      reordering function (`perm`, `cperm`);
-   - Namespace.__eq__/__hash__ compare the *stropped* full namespace, so set membership of
-     Namespace objects is decided on stropped components (ns_eqb);
+   - Namespace.__eq__/__hash__ compare `eqkey` applied to every component (ns_eqb).  Since fix
+     f08a0a1 the code compares the unstropped _namespace_components: eqkey = `same` (identity).
+     Before that fix it compared the stropped full namespace: eqkey = strop (kept only so that
+     the pre-fix defect F-NS-FOLD stays documented by a refutation theorem);
    - unbounded loops through the heap (parent chain, recursion over children, BFS) get a
      fuel computed from the store; NamespaceThm shows the fuel is never exhausted;
    - stropping (C09) is the abstract function `strop`; `es` is the language's
@@ -74,6 +76,9 @@ Definition with_suffix (name e : str) : str :=
   | Some i => if (Nat.ltb 0 i && Nat.ltb (S i) (length name))%bool then firstn i name ++ e else name ++ e
   | None => name ++ e
   end.
+
+(* the identity on components: the `eqkey` of the current code *)
+Definition same (x : str) : str := x.
 
 (* ---- heap of Namespace objects ---------------------------------------------------------- *)
 Record node := mkNode {
@@ -135,6 +140,7 @@ Inductive item := INs (k : key) (p : path) | ITy (t : ty) (p : path).
 
 Section NS.
   Variable strop : str -> str.      (* Language.filter_id(x, "path") *)
+  Variable eqkey : str -> str.      (* what Namespace.__eq__/__hash__ look at per component: `same` in the current code *)
   Variable es : bool.               (* Language.enable_stropping *)
   Variable ext : str.               (* Language.WKCV_DEFINITION_FILE_EXTENSION *)
   Variable stem : str.              (* Language.WKCV_NAMESPACE_FILE_STEM, default "_" *)
@@ -159,8 +165,8 @@ Section NS.
   (* Namespace.__init__: _output_path *)
   Definition ns_path (k : key) : path := outdir ++ map strop k ++ [with_suffix stem ext].
 
-  (* Namespace.__eq__ *)
-  Definition ns_eqb (a b : key) : bool := key_eqb (map strop a) (map strop b).
+  (* Namespace.__eq__:  self._namespace_components == other._namespace_components  (eqkey = same) *)
+  Definition ns_eqb (a b : key) : bool := key_eqb (map eqkey a) (map eqkey b).
 
   Definition set_add (l : list key) (k : key) : list key :=
     if existsb (ns_eqb k) l then l else l ++ [k].
